@@ -75,6 +75,7 @@ INFO = {
         'file, directory names, queries and phrases use ASCII letters, digits, space and "." only',
     ],
 }
+INFO['rule'] += " Later additions: repeated requests for the same file (also after the upload finished), a sibling directory whose name has another directory's name as prefix, a rescan left running while the configuration changes."
 
 USERS = ('u0', 'u1', 'u2')
 PARENT = 'p0'
